@@ -34,6 +34,10 @@ MUTANTS = [
     ("M21", "helpers.py", "        if sequence > SEQUENCE_MAX:", "        if sequence > SEQUENCE_MAX + 1:", "C10"),
     ("M22", "ace_group.py", "            if id_ < count:\n                sequence += step\n        return sequence\n\n    def ungroup_ports", "            if id_ <= count:\n                sequence += step\n        return sequence\n\n    def ungroup_ports", "C10"),
     ("M23", "helpers.py", "        if start and step < 1:", "        if start and step < 0:", "C10"),
+    ("M40", "helpers.py", "            if bottom.subnet_of(top):\n                break", "            if bottom.overlaps(top):\n                break", "C13 C03 C11"),
+    ("M41", "address_base.py", "            if other_ipnet.subnet_of(self_ipnet):\n                return True\n            return False\n\n        # other=AddrGroup", "            if other_ipnet.overlaps(self_ipnet):\n                return True\n            return False\n\n        # other=AddrGroup", "C13"),
+    ("M42", "addr_group.py", "                if other in item:\n                    return True\n            return False\n\n        if isinstance(other, AddrGroup):", "                if item in other:\n                    return True\n            return False\n\n        if isinstance(other, AddrGroup):", "C13"),
+    ("M43", "helpers.py", "    if not (tops and bottoms):\n        return False", "    if not tops:\n        return False", "C13 C03"),
     ("M30", "port.py", "            return [ports[0] - 1] if ports else [65535]", "            return [ports[0]] if ports else [65535]", "C08"),
     ("M31", "port.py", "            return [ports[-1] + 1] if ports else [1]", "            return [ports[1] + 1] if ports else [1]", "C08"),
     ("M32", "port.py", "        ports = sorted(ports)\n        if operator == \"eq\":", "        if operator == \"eq\":", "C08"),
